@@ -59,3 +59,18 @@ def hook(rd, e, st, ctx):
                 st.fields[k] = sp.Symbol(k[1], integer=True) if t.get('c') == 'int' else sp.Symbol(k[1], real=True)
             return [(st.fields[k], st)]
     return NotImplemented
+
+
+def comma_init(e):
+    """Eigen comma initialiser  `target << a, b, c`  ->  (target node, [value nodes]) ; None otherwise."""
+    e = strip_casts(e)
+    vals = []
+    while e is not None and e.get('k') == 'Op' and e.get('op') == ',' and len(e.get('args', [])) == 2:
+        vals.append(e['args'][1])
+        e = strip_casts(e['args'][0])
+    if e is not None and e.get('k') == 'Op' and e.get('op') == '<<' and len(e.get('args', [])) == 2:
+        vals.append(e['args'][1])
+        return e['args'][0], vals[::-1]
+    if e is not None and e.get('k') == 'MCall' and e.get('m') == 'finished':
+        return comma_init(e['obj'])
+    return None
